@@ -10,64 +10,102 @@
 (*   s = score (-1: banned, score not compared), b = banned,               *)
 (*   g = answer every gate must give ("allow", "deny", "any").             *)
 (* The real state after the step must match one element of the set.        *)
+(*                                                                         *)
+(* Spellings.  In ConnGater an IP is one identity.  The generator attaches *)
+(* a spelling index to every penalty / ban / message step (`sp`) and to    *)
+(* the blacklist configuration (`blsp`); the harness maps the index to one *)
+(* textual form of the address (dotted, IPv4-mapped IPv6, expanded,        *)
+(* compressed, upper-case IPv6) and asks every gate with every spelling    *)
+(* after every step.  The expected states do not depend on them.           *)
+(*                                                                         *)
+(* Concurrent ticks (Conc = TRUE).  All steps of one tick are issued at    *)
+(* the same instant from different goroutines, so any order of them (and   *)
+(* a Lift between any two) may be the one that happened: `poss` after a    *)
+(* step is the union, over all permutations of the steps of the tick so    *)
+(* far, of the sequential outcome.  The harness compares after the last    *)
+(* step of a tick only.                                                    *)
 (***************************************************************************)
 EXTENDS ConnGater, Json
 
 CONSTANTS MaxPerTick,  \* steps per tick
-          DumpEvery    \* print about 1/DumpEvery of the complete schedules (0: none)
+          DumpEvery,   \* print about 1/DumpEvery of the complete schedules (0: none)
+          Spellings,   \* spelling indices (the harness takes them modulo the number of forms of the IP)
+          Conc         \* TRUE: the steps of one tick are concurrent
 
-VARIABLES hist, poss, budget
-mcvars == <<vars, hist, poss, budget>>
+VARIABLES hist, poss, budget, blsp, tsteps, tposs, twin
+mcvars == <<vars, hist, poss, budget, blsp, tsteps, tposs, twin>>
 
 LiftClosure(S, t) == S \cup {Clean(c) : c \in {x \in S : Expired(x, t)}}
 GateCode(A) == IF A = {TRUE} THEN "allow" ELSE IF A = {FALSE} THEN "deny" ELSE "any"
 Proj(ip, S, t) ==
   {[s |-> IF IsBanned(c) THEN -1 ELSE c.score, b |-> IF IsBanned(c) THEN 1 ELSE 0,
     g |-> GateCode(GateLocal(c, ip \in blocked, t))] : c \in S}
-Entry(act, P, t) ==
-  [a |-> act.a, ip |-> act.ip, n |-> act.n, proc |-> act.proc, k |-> act.k, t |-> t,
+Entry(act, sp, P, t) ==
+  [a |-> act.a, ip |-> act.ip, n |-> act.n, proc |-> act.proc, k |-> act.k, peer |-> act.peer, sp |-> sp, t |-> t,
    exp |-> [ip \in IPs |-> Proj(ip, P[ip], t)]]
+
+(* ---- one step of the current tick as a function of (possible states, message counts) ---- *)
+StepPoss(P, W, s) ==
+  IF s.a = "msg"
+  THEN [P EXCEPT ![s.ip] = LiftClosure(BurstSucc(@, s.peer, s.proc, W[s.ip][s.peer][s.proc],
+                                                 prevwin[s.ip][s.peer][s.proc], now, s.k), now)]
+  ELSE [P EXCEPT ![s.ip] = LiftClosure(UNION {PenSucc(c, s.n, now) : c \in @}, now)]
+StepWin(W, s) == IF s.a = "msg" THEN [W EXCEPT ![s.ip][s.peer][s.proc] = @ + s.k] ELSE W
+RECURSIVE Fold(_, _, _)
+Fold(P, W, seq) == IF seq = <<>> THEN P ELSE Fold(StepPoss(P, W, Head(seq)), StepWin(W, Head(seq)), Tail(seq))
+RECURSIVE Perms(_)
+Perms(seq) ==     \* all orders of the elements of a sequence
+  IF seq = <<>> THEN {<<>>}
+  ELSE UNION {{<<seq[i]>> \o r : r \in Perms([j \in 1..(Len(seq) - 1) |-> IF j < i THEN seq[j] ELSE seq[j + 1]])}
+              : i \in 1..Len(seq)}
+AfterSteps(seq) ==
+  IF Conc THEN [ip \in IPs |-> UNION {Fold(tposs, twin, pm)[ip] : pm \in Perms(seq)}]
+  ELSE Fold(tposs, twin, seq)
 
 MCInit ==
   /\ Init
   /\ poss = [ip \in IPs |-> {CleanState}]
   /\ budget \in 0..MaxPerTick
+  /\ blsp \in Spellings
   /\ hist = <<>>
+  /\ tsteps = <<>> /\ tposs = poss /\ twin = win
 
-Record(t) == hist' = Append(hist, Entry(last', poss', t))
+Record(t, sp) == hist' = Append(hist, Entry(last', sp, poss', t))
+Stepped ==        \* after a penalty / ban / message step of the base specification
+  /\ budget > 0 /\ budget' = budget - 1
+  /\ tsteps' = Append(tsteps, last')
+  /\ poss' = AfterSteps(tsteps')
+  /\ \E sp \in Spellings : Record(now, sp)
+  /\ UNCHANGED <<blsp, tposs, twin>>
 
-MCPen(ip, n) ==
-  /\ budget > 0 /\ AddPenalty(ip, n) /\ budget' = budget - 1
-  /\ poss' = [poss EXCEPT ![ip] = LiftClosure(UNION {PenSucc(c, n, now) : c \in @}, now)]
-  /\ Record(now)
-MCBan(ip) ==
-  /\ budget > 0 /\ Ban(ip) /\ budget' = budget - 1
-  /\ poss' = [poss EXCEPT ![ip] = LiftClosure(UNION {PenSucc(c, MaxScore, now) : c \in @}, now)]
-  /\ Record(now)
-MCMsg(ip, p, k) ==
-  /\ budget > 0 /\ Msg(ip, p, k) /\ budget' = budget - 1
-  /\ poss' = [poss EXCEPT ![ip] = LiftClosure(BurstSucc(@, p, win[ip][p], prevwin[ip][p], now, k), now)]
-  /\ Record(now)
+MCPen(ip, n) == AddPenalty(ip, n) /\ Stepped
+MCBan(ip) == Ban(ip) /\ Stepped
+MCMsg(ip, q, p, k) == Msg(ip, q, p, k) /\ Stepped
 MCSweep ==
-  /\ budget = 0 /\ Sweep /\ UNCHANGED budget
+  /\ budget = 0 /\ Sweep /\ UNCHANGED <<budget, blsp, tsteps, tposs, twin>>
   /\ poss' = [ip \in IPs |-> UNION {SweepSucc(c, now) : c \in poss[ip]}]
-  /\ Record(now)
+  /\ Record(now, 0)
 MCTick ==
   /\ budget = 0 /\ Tick /\ budget' \in 0..MaxPerTick
-  /\ poss' = [ip \in IPs |-> LiftClosure({TickLocal(c) : c \in poss[ip]}, now + 1)]
-  /\ Record(now + 1)
-GiveUp == budget > 0 /\ budget' = 0 /\ UNCHANGED <<vars, hist, poss>>
+  /\ poss' = [ip \in IPs |-> LiftClosure({TickLocal(c, win[ip]) : c \in poss[ip]}, now + 1)]
+  /\ tsteps' = <<>> /\ tposs' = poss' /\ twin' = win'
+  /\ UNCHANGED blsp
+  /\ Record(now + 1, 0)
+GiveUp == budget > 0 /\ budget' = 0 /\ UNCHANGED <<vars, hist, poss, blsp, tsteps, tposs, twin>>
 
 MCNext ==
   \/ \E ip \in IPs : (\E n \in Penalties : MCPen(ip, n)) \/ MCBan(ip)
-  \/ \E ip \in IPs, p \in Procs, k \in Bursts : MCMsg(ip, p, k)
+  \/ \E ip \in IPs, q \in Peers, p \in Procs, k \in Bursts : MCMsg(ip, q, p, k)
   \/ MCSweep \/ MCTick \/ GiveUp
 MCSpec == MCInit /\ [][MCNext]_mcvars
 
 \* the state of the specification is one of the allowed states
 Tracked == \A ip \in IPs : st[ip] \in poss[ip]
+\* the sequential outcome is always among the outcomes of the concurrent tick
+SerialInConc == ~swept => \A ip \in IPs : Fold(tposs, twin, tsteps)[ip] \subseteq poss[ip]
 Terminal == now = MaxTime /\ budget = 0 /\ (SweepDue => swept)
 DumpInv ==
   (DumpEvery > 0 /\ Terminal /\ RandomElement(1..DumpEvery) = 1)
-    => PrintT(<<"DUMP", ToJson([blocked |-> blocked, period |-> period, phase |-> phase, steps |-> hist])>>)
+    => PrintT(<<"DUMP", ToJson([blocked |-> blocked, blsp |-> blsp, period |-> period, phase |-> phase,
+                                conc |-> Conc, steps |-> hist])>>)
 =============================================================================
